@@ -264,7 +264,7 @@ def checks():
                    'thorough': 'shapes (<=1 x <=3), (<=2 x <=3), (<=3 x <=2)'}),
         HypCheck(
             'random-histories', strategy, run_case,
-            budget={'quick': (16, 60), 'thorough': (16, 4000)},
+            budget={'quick': (16, 120), 'thorough': (16, 4000)},
             rule='Hypothesis programs up to 6 changes x 4 files over '
                  '{utf-16-be, cp037, utf-32-le} with content sections '
                  'independently overriding; same oracle; non-trivial as '
